@@ -585,8 +585,23 @@ func (r *c07Run) resync(why string) *verifkit.Failure {
 	}
 	if st != api.PeerState_SESSION_STATE_ESTABLISHED && r.m.st == bgp.BGP_FSM_ESTABLISHED {
 		now := r.n.now()
+		if r.m.cur != nil && r.m.kaNext != 0 && r.m.kaNext <= now+5*time.Millisecond {
+			// the keepalive timer expires at the instant the session is torn down: the KEEPALIVE of the sender
+			// goroutine may still come out (before or after the NOTIFICATION), as with the hold-timer tie
+			r.m.cur.expect = append(r.m.cur.expect, c07Expect{typ: bgp.BGP_MSG_KEEPALIVE, at: r.m.kaNext, optional: true, anyTime: true})
+		}
 		if r.m.cur != nil {
 			r.m.cur.expect = append(r.m.cur.expect, c07Expect{typ: bgp.BGP_MSG_NOTIFICATION, code: bgp.BGP_ERROR_FSM_ERROR, sub: 255, at: now, optional: true, anyTime: true})
+			if r.m.kaNext != 0 && r.m.kaNext <= now+5*time.Millisecond {
+				r.m.cur.expect = append(r.m.cur.expect, c07Expect{typ: bgp.BGP_MSG_KEEPALIVE, at: r.m.kaNext, optional: true, anyTime: true})
+			}
+			if r.m.holdAt != 0 && r.m.holdAt <= now+5*time.Millisecond {
+				// ... and the hold timer expires at that instant too: its NOTIFICATION may win
+				r.m.cur.expect = append(r.m.cur.expect, c07Expect{typ: bgp.BGP_MSG_NOTIFICATION, code: bgp.BGP_ERROR_HOLD_TIMER_EXPIRED, sub: 0, at: r.m.holdAt, optional: true, anyTime: true})
+				if r.m.kaNext != 0 && r.m.kaNext <= now+5*time.Millisecond {
+					r.m.cur.expect = append(r.m.cur.expect, c07Expect{typ: bgp.BGP_MSG_KEEPALIVE, at: r.m.kaNext, optional: true, anyTime: true})
+				}
+			}
 			r.m.cur.closed = true
 		}
 		r.enterIdle(now)
